@@ -289,7 +289,7 @@ def r07_3(ctx, rep, roles):
                 continue
             sers = [e for e in row.calls() if e[1].endswith("Serializable>::serialize") and e[2] and len(e[2]) > 1 and T.last_field(("proj", ("obj", ("S", "x")), e[2][1][2][-1])) == (CSW, "output")
                     if e[2][1][0] == "ptr" and e[2][1][2]]
-            exts = [e for e in row.calls() if e[1].endswith("::extend") and e[2] and e[2][0][0] == "ptr" and e[2][0][2] and e[2][0][2][-1] == F(CSW, "output")]
+            exts = [e for e in row.calls() if (e[1].endswith("::extend") or e[1].endswith("::extend_from_slice")) and e[2] and e[2][0][0] == "ptr" and e[2][0][2] and e[2][0][2][-1] == F(CSW, "output")]
             if not sers and not exts:
                 continue
             n_paths += 1
